@@ -43,6 +43,10 @@ class Prop:
     def signature(self, case, rec, clause):
         return clause
 
+    def case_id(self, rec_id):
+        """Map a trace-record id to the id of the case that produced it."""
+        return rec_id
+
     def nontrivial(self, case):
         return json.dumps(case.get("key", case), sort_keys=True, default=str)
 
@@ -109,7 +113,7 @@ def run_check(prop, tier, replay=None):
     for ident, clause, _ in fails:
         if not clause.startswith(pid + "."):
             continue
-        case, rec = byid.get(ident), recbyid.get(ident)
+        case, rec = byid.get(prop.case_id(ident)), recbyid.get(ident)
         sig = prop.signature(case, rec, clause)
         k = next((k for k in known if k["signature"] == sig), None)
         if k is not None:
@@ -124,7 +128,7 @@ def run_check(prop, tier, replay=None):
         if sig in seen:
             continue
         seen.add(sig)
-        case = byid.get(ident)
+        case = byid.get(prop.case_id(ident))
         group = None
         if prop.group_key and case is not None:
             g = case.get(prop.group_key)
@@ -143,7 +147,7 @@ def run_check(prop, tier, replay=None):
             nontriv.add(k)
     samples = []
     for c in cases[:: max(1, len(cases) // 4)][:4]:
-        samples.append(prop.sample(c, recbyid.get(c["id"])))
+        samples.append(prop.sample(c, recbyid.get(c["id"]) or next((r for r in recs if prop.case_id(r["id"]) == c["id"]), None)))
     evaluated = sum(len([x for x in r.get("clauses", []) if x.startswith(pid + ".")]) for r in recs)
     cov = {
         "states": sum(m["states"] for m in mc if m["expect"] == "hold") + tstats["states"],
